@@ -256,7 +256,7 @@ func runCheck(id, tier, only string, workers int, verbose bool) int {
 		return r
 	}
 	nviol := 0
-	for _, j := range jobs {
+	for ji, j := range jobs {
 		maxPaths := j.h.MaxPaths
 		if maxPaths == 0 {
 			maxPaths = 60000
@@ -325,7 +325,7 @@ func runCheck(id, tier, only string, workers int, verbose bool) int {
 			v := g.first
 			nviol++
 			rec := map[string]interface{}{"harness": j.h.Func, "pkg": j.h.Pkg, "func": j.h.Func, "params": j.params, "model": v.Model, "order": v.Order, "kind": v.Kind, "msg": v.Msg, "notes": v.Notes, "property": id, "pos": v.Pos, "known": v.Known}
-			recPath := filepath.Join(replayDir, fmt.Sprintf("%s-%s-%d.json", id, j.h.Func, gi))
+			recPath := filepath.Join(replayDir, fmt.Sprintf("%s-%s-%d-%d.json", id, j.h.Func, ji, gi))
 			b, _ := json.MarshalIndent(rec, "", " ")
 			os.WriteFile(recPath, b, 0o644)
 			os.WriteFile(strings.TrimSuffix(recPath, ".json")+".smt2", []byte(v.Script), 0o644)
@@ -384,7 +384,7 @@ func runCheck(id, tier, only string, workers int, verbose bool) int {
 			var recs []string
 			for si, s := range rep.Samples {
 				rec := map[string]interface{}{"harness": j.h.Func, "pkg": j.h.Pkg, "func": j.h.Func, "params": j.params, "model": s.Model, "order": s.Order, "kind": "sample"}
-				recPath := filepath.Join(scratch, fmt.Sprintf("%s-%s-s%d.json", id, j.h.Func, si))
+				recPath := filepath.Join(scratch, fmt.Sprintf("%s-%s-%d-s%d.json", id, j.h.Func, ji, si))
 				b, _ := json.Marshal(rec)
 				os.WriteFile(recPath, b, 0o644)
 				recs = append(recs, recPath)
